@@ -94,6 +94,10 @@ def run_one(choices, params):
 
     shared = {} if (mode == "isolation" and w.draw(2)) else None
     owner_view = {}         # what the owner itself has written into `shared` so far
+    # isolation across *servers*: each connection is accepted by a server object of its own, made without a configuration argument and
+    # (some of them) re-configured in place afterwards, the way tests/test_attr_access.py does; a server nobody configured has the defaults
+    via_servers = mode == "isolation" and shared is None and classic_at is None and w.draw(2) == 0
+    servers = []
 
     def main(sim, k):
         conns = []
@@ -120,6 +124,27 @@ def run_one(choices, params):
                     sim.count("c06:settings-dict-reused")
                     model_conf = dict(DEFAULT_CONFIG)
                     model_conf.update(allow_all_attrs=True, allow_getattr=True, allow_setattr=True, allow_delattr=True, allow_exposed_attrs=False)
+                elif via_servers:
+                    from . import srv as SV
+                    cbox = {}
+
+                    class SrvSvc(rpyc.VoidService):
+                        def on_connect(self, conn, cbox=cbox):
+                            cbox["cb"] = conn
+                    server, stask, sbox = SV.start_server(sim, rpyc, w.pick(("threaded", "threaded", "oneshot")), SrvSvc, port=18900 + ci)
+                    if server is None:
+                        raise core.Violation("server-failed-to-start", "%r" % (sim.task_errors,))
+                    servers.append(server)
+                    model_conf = dict(DEFAULT_CONFIG)
+                    if ci == 0 or w.draw(2):
+                        server.protocol_config.update(conf)
+                        model_conf.update(conf)
+                    ca = rpyc.connect(SV.SRV_HOST, 18900 + ci)
+                    if not sim.block(lambda: "cb" in cbox, 30, "wait-server-connection"):
+                        raise core.Violation("hang", "the server did not accept the connection")
+                    cb = cbox["cb"]
+                    srv = stask
+                    sim.count("c06:server-made-without-config")
                 elif ci == classic_at:
                     ca, cb, _, srv = pair.connect_pair_serving(k, rpyc.ClassicService(), rpyc.SlaveService())
                     model_conf = dict(DEFAULT_CONFIG)
@@ -459,6 +484,8 @@ def run_one(choices, params):
             raise core.Violation("config-leak", "DEFAULT_CONFIG changed: %r" % (diffk,))
         for ca, cb, mconf, srv in conns:
             ca.close()
+        for server in servers:
+            server.close()
         return True
 
     out, sim = H.simulate(choices, main, strategy=strat, netcfg=cfg, step_cap=4000000)
